@@ -97,6 +97,8 @@ class _Run:
         self.gates = {}
         self.stopping = False
         self.push_may_yield = False
+        self.measure_depth = False
+        self.max_depth = 0
 
     # -- the scripted request handler (adversary)
     def make_handler(self):
@@ -286,6 +288,12 @@ class _Run:
                 return await self.inner.start(coro_func, *args, name=name)
 
             async def _first_step(self, coro_func, args):
+                if run.measure_depth:
+                    import sys
+                    f, d = sys._getframe(), 0
+                    while f is not None:
+                        f, d = f.f_back, d + 1
+                    run.max_depth = max(run.max_depth, d)
                 if args and isinstance(args[0], (bytes, bytearray, memoryview)):
                     a = args[1][1] - 1000
                     run.cur_handler_addr = a
@@ -374,14 +382,25 @@ class _Run:
     final_hook = None
 
 
-def run_script(naddr, progs, actions, mode, final_hook=None):
+def run_script(naddr, progs, actions, mode, final_hook=None, recursion_limit=None, stats=None):
+    import sys
     r = _Run(naddr, progs, actions, mode)
     r.final_hook = final_hook
+    r.measure_depth = stats is not None
+    old = sys.getrecursionlimit()
+    if recursion_limit:
+        sys.setrecursionlimit(recursion_limit)
     try:
         detloop.run(r.main(), max_steps=100000)
     except detloop.DeadlockError:
         # the real server (or its tear-down) waits for something that can never happen any more
         r.log.append(("hang",))
+    except RecursionError:
+        r.log.append(("hang",))
+    finally:
+        sys.setrecursionlimit(old)
+    if stats is not None:
+        stats["max_stack_depth"] = r.max_depth
     return r.log
 
 
@@ -556,7 +575,59 @@ def _listener_cases(thorough):
     yield from rec([], False, 0)
 
 
+KNOWN_EAGER = "eager-task-factory-nested-restart-starves-queue"
+
+
+def eager_burst_probe(limit, burst, control):
+    """witness of the known finding F-C16-1, independent of the machine's defaults: asyncio.eager_task_factory, the
+    recursion limit set explicitly to `limit`, one client, a first invocation that suspends once, then `burst` datagrams
+    handled by one-shot invocations that never suspend (every restart by the task-done hook then runs synchronously inside
+    the previous one, 6 frames each).  Returns None when everything is handled and the server stops cleanly (the defect
+    is absent: not an alarm), the known signature for exactly this history class (eager, nesting deeper than half the
+    limit, starvation beyond the control size), and a plain `starved` failure for anything else."""
+    def scenario(b):
+        progs = [[[1, -1], [0]] + [[2], [1, -1]] * b]
+        actions = [[0, 0, b"first"], [3]] + [[0, 0, b"D%d" % k] for k in range(b)] + [[3], [1, 0], [3]]
+        stats = {}
+        log = run_script(1, progs, actions, [0, 0, 1], recursion_limit=limit, stats=stats)
+        got = [ev[2] for ev in log if ev[0] == "grecv"]
+        want = [b"first"] + [b"D%d" % k for k in range(b)]
+        bad = [ev[0] for ev in log if ev[0] in ("hang", "crash", "gcancelled")]
+        return got, want, bad, stats.get("max_stack_depth", 0)
+
+    import gc
+    import sys
+    old_hook, alog = sys.unraisablehook, logging.getLogger("asyncio")
+    old_level = alog.level
+    sys.unraisablehook = lambda *a: None        # the wreck of a server killed by RecursionError is collected noisily
+    alog.setLevel(logging.CRITICAL + 1)
+    try:
+        return _eager_burst_verdict(scenario, limit, burst, control)
+    finally:
+        gc.collect()
+        sys.unraisablehook = old_hook
+        alog.setLevel(old_level)
+
+
+def _eager_burst_verdict(scenario, limit, burst, control):
+    got, want, bad, _ = scenario(control)
+    if got != want or bad:
+        return (f"starved: eager tasks, a burst of only {control} datagrams (recursion limit {limit}): handlers saw "
+                f"{len(got)} of {len(want)} requests, {bad}")
+    got, want, bad, depth = scenario(burst)
+    if got == want and not bad:
+        return None
+    if got != want[:len(got)]:
+        return f"fifo: eager burst: handlers saw {got[:5]!r}... which is not a prefix of the arrivals"
+    if len(got) > control and depth > limit // 2:
+        return (f"{KNOWN_EAGER}: recursion limit {limit}, burst of {burst}: handlers saw {len(got) - 1} of {burst} queued "
+                f"datagrams, stack depth reached {depth}, then {bad or ['no progress']}")
+    return f"starved: eager burst of {burst}: handlers saw {len(got)} of {len(want)} requests at stack depth {depth}, {bad}"
+
+
 def run_impl(inp):
+    if inp[0] == -2:
+        return [0]
     if inp[0] == -1:
         return run_listener(inp[1])
     naddr, labels, progs, actions, mode = inp[:5]
@@ -758,13 +829,13 @@ def _backlog_cases(seen, thorough):
 
 
 def _eager_cases(seen, thorough):
-    """asyncio.eager_task_factory: every action sequence up to length 4 over {arrive, release, idle} x programs up to
+    """asyncio.eager_task_factory: every action sequence up to length 3 (4 thorough) over {arrive, release, idle} x programs up to
     length 2 over {suspend, yield, return, raise} for one address (in-memory and real listener); with
     VERIF_C16_EAGER_BURST=1 also bursts of hundreds of datagrams for one client whose one-shot handlers never suspend
     (every restart by the task-done hook then happens synchronously inside the previous one)"""
     choices = ([0], [1, -1], [2], [3])
     progs_all = [list(p) for n in range(3) for p in itertools.product(choices, repeat=n)]
-    for n in range(1, 5):
+    for n in range(1, (5 if thorough else 4)):
         for seq in itertools.product("ARQ", repeat=n):
             if "A" not in seq:
                 continue
@@ -885,6 +956,8 @@ def _analyse(naddr, log, where):
 
 
 def oracle(inp):
+    if inp[0] == -2:
+        return eager_burst_probe(inp[1], inp[2], inp[3])
     if inp[0] == -1:
         got, _ = run_listener(inp[1])
         want = [[lab[1], bytes(lab[2])] for lab in inp[1] if lab[0] == 0]
@@ -936,7 +1009,7 @@ def signature(inp, failure):
 
 
 def shrink(inp):
-    if inp[0] == -1:
+    if inp[0] in (-1, -2):
         return
     naddr, _labels, progs, actions, mode = inp[:5]
     for i in range(len(actions)):
